@@ -46,6 +46,7 @@ type vMethod struct {
 	empty     bool
 	setsRoot  bool
 	unsupCall bool // a top-level statement of the body is s.newUnsupportedRuleError(...)
+	parts     []int // Parts / partIdx bookkeeping operations (see partsOps)
 	actions   []vAction
 }
 
@@ -515,6 +516,124 @@ func (x *vExt) stmt(st ast.Stmt, env *vEnv, guard []vLit, out *[]vAction) {
 	}
 }
 
+// partsOps: the bookkeeping a method performs on the `Parts` slice / `partIdx` counter of its visitor, in statement order
+// (helpers of the same receiver are inlined):
+//   0 allocEq    if len(<x>.Parts) == s.partIdx { <x>.Parts = append(<x>.Parts, …) }
+//   1 access     <x>.CurrentPart()           (MultiPartQuery.CurrentPart: Parts[len(Parts)-1])
+//   2 advance    s.partIdx += 1 / s.partIdx++
+//   3 allocZero  if len(<x>.Parts) == 0 { append }
+//   4 other      any other append to Parts / assignment to partIdx / indexing of Parts
+func (x *vExt) partsOps(list []ast.Stmt, recv, recvType string, depth int) []int {
+	var ops []int
+	isParts := func(e ast.Expr) bool {
+		sel, ok := e.(*ast.SelectorExpr)
+		return ok && sel.Sel.Name == "Parts"
+	}
+	isIdx := func(e ast.Expr) bool {
+		sel, ok := e.(*ast.SelectorExpr)
+		if !ok || sel.Sel.Name != "partIdx" {
+			return false
+		}
+		id, ok := sel.X.(*ast.Ident)
+		return ok && id.Name == recv
+	}
+	appendsParts := func(n ast.Node) bool {
+		found := false
+		ast.Inspect(n, func(m ast.Node) bool {
+			if as, ok := m.(*ast.AssignStmt); ok && len(as.Lhs) == 1 && isParts(as.Lhs[0]) {
+				found = true
+			}
+			if c, ok := m.(*ast.CallExpr); ok {
+				if sel, ok := c.Fun.(*ast.SelectorExpr); ok && sel.Sel.Name == "AppendPart" {
+					found = true
+				}
+			}
+			return !found
+		})
+		return found
+	}
+	var scanExpr func(n ast.Node)
+	scanExpr = func(n ast.Node) {
+		ast.Inspect(n, func(m ast.Node) bool {
+			switch t := m.(type) {
+			case *ast.CallExpr:
+				if sel, ok := t.Fun.(*ast.SelectorExpr); ok {
+					if sel.Sel.Name == "CurrentPart" {
+						ops = append(ops, 1)
+					}
+					if id, ok := sel.X.(*ast.Ident); ok && id.Name == recv && depth < 4 {
+						if fd, ok := x.funcs[recvType+"."+sel.Sel.Name]; ok && fd.Body != nil && fd.Recv != nil && len(fd.Recv.List[0].Names) > 0 {
+							ops = append(ops, x.partsOps(fd.Body.List, fd.Recv.List[0].Names[0].Name, recvType, depth+1)...)
+						}
+					}
+				}
+			case *ast.IndexExpr:
+				if isParts(t.X) {
+					ops = append(ops, 4)
+				}
+			}
+			return true
+		})
+	}
+	for _, st := range list {
+		switch t := st.(type) {
+		case *ast.IfStmt:
+			if appendsParts(t.Body) && t.Else == nil && t.Init == nil {
+				code := 4
+				if be, ok := t.Cond.(*ast.BinaryExpr); ok && be.Op == token.EQL {
+					if c, ok := be.X.(*ast.CallExpr); ok && len(c.Args) == 1 && isParts(c.Args[0]) {
+						if id, ok := c.Fun.(*ast.Ident); ok && id.Name == "len" {
+							if isIdx(be.Y) {
+								code = 0
+							} else if bl, ok := be.Y.(*ast.BasicLit); ok && bl.Value == "0" {
+								code = 3
+							}
+						}
+					}
+				}
+				if len(t.Body.List) != 1 {
+					code = 4
+				}
+				ops = append(ops, code)
+				continue
+			}
+			scanExpr(t)
+		case *ast.AssignStmt:
+			handled := false
+			if len(t.Lhs) == 1 && isIdx(t.Lhs[0]) {
+				if bl, ok := t.Rhs[0].(*ast.BasicLit); ok && t.Tok == token.ADD_ASSIGN && bl.Value == "1" {
+					ops = append(ops, 2)
+				} else {
+					ops = append(ops, 4)
+				}
+				handled = true
+			} else if len(t.Lhs) == 1 && isParts(t.Lhs[0]) {
+				ops = append(ops, 4)
+				handled = true
+			}
+			if !handled {
+				scanExpr(t)
+			}
+		case *ast.IncDecStmt:
+			if isIdx(t.X) {
+				if t.Tok == token.INC {
+					ops = append(ops, 2)
+				} else {
+					ops = append(ops, 4)
+				}
+			} else {
+				scanExpr(t)
+			}
+		default:
+			if appendsParts(st) {
+				ops = append(ops, 4)
+			}
+			scanExpr(st)
+		}
+	}
+	return ops
+}
+
 func normGuard(g []vLit) []vLit {
 	seen := map[string]bool{}
 	var out []vLit
@@ -764,7 +883,7 @@ func visitorFacts(repo string, w *strings.Builder) error {
 				}
 			}
 		}
-		methods = append(methods, vMethod{typ: rt, name: fd.Name.Name, rule: r, enter: strings.HasPrefix(fd.Name.Name, "Enter"), unsupCall: unsupCall,
+		methods = append(methods, vMethod{typ: rt, name: fd.Name.Name, rule: r, enter: strings.HasPrefix(fd.Name.Name, "Enter"), unsupCall: unsupCall, parts: x.partsOps(fd.Body.List, env.recv, rt, 0),
 			addsErr: callsNamed(fd.Body, "AddErrors") || callsNamed(fd.Body, "newUnsupportedRuleError"),
 			empty:   len(fd.Body.List) == 0, setsRoot: setsRoot, actions: acts})
 	}
@@ -980,6 +1099,29 @@ func visitorFacts(repo string, w *strings.Builder) error {
 		}
 	}
 	fmt.Fprintf(w, "/-- (receiver type, rule) of every EnterOC_<rule> of a visitor OTHER than BaseVisitor whose body unconditionally calls newUnsupportedRuleError -/\ndef unsupMethods : List (Nat × Nat) := [%s]\n", strings.Join(up, ", "))
+	var po []string
+	for _, m := range methods {
+		if len(m.parts) > 0 {
+			po = append(po, fmt.Sprintf("(%d, %d, %v, %s)", typeIdx[m.typ], m.rule, m.enter, leanNatList(m.parts)))
+		}
+	}
+	fmt.Fprintf(w, "/-- (receiver type, rule, isEnter, operations) for every method that touches the `Parts` slice / `partIdx` counter of its visitor:\n0 allocEq `if len(Parts) == partIdx { append }`, 1 access `CurrentPart()`, 2 advance `partIdx += 1`, 3 allocZero `if len(Parts) == 0 { append }`, 4 anything else -/\ndef partsOps : List (Nat × Nat × Bool × List Nat) := [%s]\n", strings.Join(po, ", "))
+	// MultiPartQuery.CurrentPart as written (cypher/models/cypher/model.go)
+	curSrc := "<missing>"
+	if mfset, mfiles, err := parseDir(filepath.Join(repo, "cypher", "models", "cypher")); err == nil {
+		for _, f := range mfiles {
+			for _, d := range f.Decls {
+				if fd, ok := d.(*ast.FuncDecl); ok && fd.Name.Name == "CurrentPart" && recvType(fd) == "MultiPartQuery" {
+					fd2 := *fd
+					fd2.Doc = nil
+					var b bytes.Buffer
+					_ = (&printer.Config{Mode: printer.RawFormat}).Fprint(&b, mfset, &printer.CommentedNode{Node: &fd2, Comments: nil})
+					curSrc = strings.Join(strings.Fields(b.String()), " ")
+				}
+			}
+		}
+	}
+	fmt.Fprintf(w, "def srcCurrentPart : String := %s\n", leanStr(curSrc))
 	// token table
 	sort.Slice(lexerToks, func(i, j int) bool { return lexerToks[i].n < lexerToks[j].n })
 	var tk []string
